@@ -284,9 +284,45 @@ def rule_any_order(ctx, fx, config):
     for nbk in N:
         t = f.blocks[nbk]["term"]
         e = switch_edges(f, t["t"]) if t["t"] is not None else None
+        # the null edge proper: null-like text *and* not tagged `!!str`
+        if e:
+            for cb, ct in f.calls():
+                if cb in f.reachable([e[0]]) and last_seg(fx.callee(ct)) in ("ne", "eq"):
+                    with f.deep():
+                        args = " ".join(render(f.sym_operand(a)) for a in ct["args"])
+                    if "SfTag::String" in args and f.dominates(nbk, cb) and not any(x in f.reachable([e[0]], avoid=[cb]) for x in visits("visit_unit")):
+                        e2 = switch_edges(f, ct["t"]) if ct["t"] is not None else None
+                        if e2:
+                            e = (e2[0] if last_seg(fx.callee(ct)) == "ne" else e2[1], e[1])
+                            break
         vu = visits("visit_unit", "visit_none")
         okn = bool(e) and bool(f.reachable([e[0]]) & set(vu)) and not (f.reachable([e[0]]) & set(vb + vi + vf + vs + visits('visit_string', 'visit_str', 'visit_borrowed_str')))
         ctx.check(okn, "ORDER", "C06:ORDER:any:null-yields-unit", "a null-like plain scalar yields unit", "the null-like edge of deserialize_any does not end in visit_unit", config, ctx.where(f, nbk))
+
+
+def rule_str_tag_not_null(ctx, fx, config):
+    """A scalar tagged `!!str` is the string, whatever its text: the three typeless / optional positions that test
+    null-likeness (deserialize_option, deserialize_any, deserialize_unit) also test the tag."""
+    for nm, pred in (("deserialize_option", "scalar_is_nullish_for_option"), ("deserialize_any", "scalar_is_nullish"), ("deserialize_unit", "scalar_is_nullish")):
+        f = fx.fn(DESER + nm)
+        ctx.saw(f)
+        calls = [(b, t) for b, t in f.calls() if fx.callee(t) == PS + pred]
+        ok_all = bool(calls)
+        for b, t in calls:
+            e = switch_edges(f, t["t"]) if t["t"] is not None else None
+            found = False
+            if e:
+                region = f.reachable([e[0]])
+                for cb, ct in f.calls():
+                    if cb in region and last_seg(fx.callee(ct)) in ("ne", "eq"):
+                        with f.deep():
+                            args = " ".join(render(f.sym_operand(a)) for a in ct["args"])
+                        if "SfTag::String" in args:
+                            # no null answer is reachable from the null-like edge without passing the tag test
+                            vu = [x for x, xt in f.calls() if str(xt["f"].get("trait")) == "serde::de::Visitor" and xt["f"].get("name") in ("visit_unit", "visit_none")]
+                            found = found or not any(x in f.reachable([e[0]], avoid=[cb]) for x in vu)
+            ok_all = ok_all and found
+        ctx.check(ok_all, "STYLE", "C06:STYLE:str-tag-not-null:%s" % nm, "a null-like text tagged `!!str` is not answered with null", "%s answers null for a null-like scalar without looking at a `!!str` tag: `!!str null` reads as None / unit / Null while a String target reads \"null\"" % nm, config, ctx.where(f))
 
 
 def rule_trim(ctx, fx, config):
@@ -446,5 +482,6 @@ def run(ctx):
         rule_style(ctx, fx, config)
         rule_any_order(ctx, fx, config)
         rule_trim(ctx, fx, config)
+        rule_str_tag_not_null(ctx, fx, config)
         rule_wire(ctx, fx, config)
         rule_base64(ctx, fx, config)
